@@ -663,10 +663,14 @@ Result runBV(const Case& cs) {
       for (std::size_t j = 1; j < w[1].size(); ++j) raw.push_back(w[1][j] == '1');
       try {
         BV nv(raw);
-        v = nv;
-        sh.assign(raw.size() / B, BS());
-        for (std::size_t j = 0; j < raw.size(); ++j) sh[j / B][j % B] = raw[j];
-        out.check(raw.size() % B == 0, "BitSetVector(vector<bool>) accepted a size that is not a multiple of the block size");
+        if (raw.size() % B != 0) {
+          out.complain("BitSetVector(vector<bool>) accepted a size that is not a multiple of the block size");
+          res = "accepted";
+        } else {
+          v = nv;
+          sh.assign(raw.size() / B, BS());
+          for (std::size_t j = 0; j < raw.size(); ++j) sh[j / B][j % B] = raw[j];
+        }
         stat("bv_fromv");
       } catch (Dune::RangeError&) {
         res = "ERR:Range";
